@@ -955,6 +955,9 @@ Module PanicExample.
     wire_step vf ao so Hk gid S1 key oc Hz node_empty (WTick 10 []).
 End PanicExample.
 
+Lemma n_gen_ok : node_ok PanicExample.n_gen.
+Proof. apply wire_step_preserves_ok. exact node_empty_ok. Qed.
+
 Theorem C14_legacy_refuted :
   update_utxos ureg_empty [PanicExample.t_empty] 10 = Err (EPanic PsNoOutputs) /\
   pool_add PanicExample.vf PanicExample.ao PanicExample.so PanicExample.Sx
